@@ -317,11 +317,18 @@ class _JoinLayers:
 
 
 def hdd_snapshots(rng, ctx, depth: int = 2, top_mode: str = "default", nstorages: int = 1, base_plain: bool = False,
-                  open_guid: str = "top") -> Opened:
+                  open_guid: str = "top", linked: bool = False) -> Opened:
+    """linked: a linked clone - the base images stay in the bundle they were cloned from and are named by absolute paths that
+    exist; the clone's own first images carry the same file names (both bundles were named alike), and they are not the base."""
     from dissect.hypervisor.disk.hdd import HDD
 
-    d = Path(ctx.tmpdir()) / "x.hdd"
+    top = Path(ctx.tmpdir())
+    d = top / "x.hdd"
     d.mkdir()
+    linked = linked and depth >= 2
+    origin = top / "origin vm.pvm" / "x.hdd"
+    if linked:
+        origin.mkdir(parents=True)
     import uuid as _uuid
 
     guids = ["{" + str(_uuid.UUID(int=rng.getrandbits(128))) + "}" for _ in range(depth)]
@@ -353,6 +360,14 @@ def hdd_snapshots(rng, ctx, depth: int = 2, top_mode: str = "default", nstorages
                 sf, layer, meta = whds.build_hds(rng, version=rng.choice([1, 2]), m_sectors=ms, nclusters=n, states=states,
                                                  placement=rng.choice(["shuffle", "coincidence"]), tag=tag, in_use=rng.random() < 0.3)
                 typ = "Compressed"
+            if linked and level == 0:
+                fn = f"x.hdd.{si}.hds"
+                sf.write_to(origin / fn)
+                images.append({"guid": g, "type": typ, "file": str(origin / fn)})
+                layers.insert(0, layer)
+                continue
+            if linked and level == 1:
+                fn = f"x.hdd.{si}.hds"
             files[fn] = sf
             images.append({"guid": g, "type": typ, "file": fn})
             layers.insert(0, layer)
@@ -379,7 +394,7 @@ def hdd_snapshots(rng, ctx, depth: int = 2, top_mode: str = "default", nstorages
 
     parts = [Model(sizes[si], parts_layers[si][depth - upto :]) for si in range(nstorages)]
     model = ConcatModel(parts) if nstorages > 1 else parts[0]
-    op = Opened(st, model, info={"depth": depth, "opened_depth": upto, "top_mode": top_mode, "storages": nstorages, "base_plain": base_plain})
+    op = Opened(st, model, info={"depth": depth, "opened_depth": upto, "top_mode": top_mode, "storages": nstorages, "base_plain": base_plain, "linked_clone": linked})
     # for re-opening the same HDD object: every snapshot level with its own model
     op.hdd = hdd
     op.levels = []
